@@ -414,6 +414,26 @@ def melody_optional_job(size, which):
     return j
 
 
+def melody_kw_job(size, kw):
+    """melody.evaluate with keywords of its pre-processing step (hop: resample both series to a constant hop; kind: interpolation)"""
+    ev0 = E.by_task('melody')
+
+    def build(ctx, size_=None):
+        inp = ev0.build(ctx, size)
+        inp['kw'] = dict(kw)
+        return inp
+    ev = E.Ev('melody', MEL.evaluate, build, ev0.sizes, ev0.funcs + ['melody.to_cent_voicing', 'melody.resample_melody_series', 'melody.constant_hop_timebase'],
+              exact_floats=ev0.exact_floats, timeout_s=ev0.timeout_s)
+    old = E.EVALS
+    try:
+        E.EVALS = [ev]
+        j = semantic_job('melody', size)
+    finally:
+        E.EVALS = old
+    j.name = 'semantic:melody.evaluate[%s,%s]' % ('x'.join(map(str, size)), ','.join('%s=%s' % kv for kv in sorted(kw.items())))
+    return j
+
+
 def hierarchy_spans_job(size):
     """hierarchy.evaluate on hierarchies of different durations (the documented pre-processing fits the estimate to the reference's span)"""
     ev0 = E.by_task('hierarchy')
@@ -473,6 +493,10 @@ def jobs(tier):
         js.append(melody_optional_job((1, 0), which))
     if not q:
         js.append(melody_optional_job((2, 0), (False, True)))
+    js.append(melody_kw_job((1, 2), dict(hop=0.5)))
+    js.append(melody_kw_job((2, 3), dict(kind='zero')))
+    if not q:
+        js.append(melody_kw_job((2, 3), dict(hop=0.25, kind='linear')))
     js.append(hierarchy_spans_job((2, 2)))
     if not q:
         js.append(hierarchy_spans_job((2, 1)))
